@@ -539,6 +539,36 @@ func ruleCloneDeep(c *Ctx, rule, short, name string) {
 				})
 			}
 		}
+		// or the local is filled by index in a loop: rows[i] = fresh
+		if id, ok := unparen(assigned).(*ast.Ident); ok && elemRhs == nil {
+			local := p.TypesInfo.ObjectOf(id)
+			for _, st := range fd.Body.List {
+				var body *ast.BlockStmt
+				switch l := st.(type) {
+				case *ast.RangeStmt:
+					body = l.Body
+				case *ast.ForStmt:
+					body = l.Body
+				}
+				if body == nil {
+					continue
+				}
+				ast.Inspect(body, func(n ast.Node) bool {
+					as, ok := n.(*ast.AssignStmt)
+					if !ok || len(as.Lhs) != len(as.Rhs) {
+						return true
+					}
+					for i, l := range as.Lhs {
+						if ix, ok := unparen(l).(*ast.IndexExpr); ok {
+							if b, ok := unparen(ix.X).(*ast.Ident); ok && p.TypesInfo.ObjectOf(b) == local {
+								elemRhs = as.Rhs[i]
+							}
+						}
+					}
+					return true
+				})
+			}
+		}
 		// append(nil, ...) of elements that need deep copies is shallow
 		if elemRhs == nil {
 			if call, ok := unparen(assigned).(*ast.CallExpr); ok {
